@@ -80,6 +80,8 @@ class RaisingPass(LinePass):
 
 class UnalteredPass(LinePass):
     def transform(self, test_case, state, process_event_notifier):
+        if self.arg == 'then-lines' and state >= 1:
+            return LinePass.transform(self, test_case, state, process_event_notifier)      # later candidates are real ones
         return (PassResult.OK, state)
 
 
